@@ -131,6 +131,7 @@ pub fn finish(property: &str, tier: &str, seed: i64, parts: Vec<Part>, wall_s: f
     let mut exit = 0;
     let mut lines: Vec<String> = Vec::new();
     let mut known_hits: BTreeMap<String, usize> = BTreeMap::new();
+    let mut more: Vec<String> = Vec::new();
     for p in &parts {
         states += p.states;
         transitions += p.transitions;
@@ -166,13 +167,20 @@ pub fn finish(property: &str, tier: &str, seed: i64, parts: Vec<Part>, wall_s: f
                     let _ = std::fs::create_dir_all(&dir);
                     let path = format!("{}/{}.json", dir, sanitize(&v.sig));
                     let _ = std::fs::write(&path, serde_json::to_vec_pretty(replay).unwrap());
-                    lines.push(format!("VIOLATION property={} replay={}", property, path));
-                    lines.push(format!("  oracle={} sig={} seen={}x", v.oracle, v.sig, count));
-                    lines.push(format!("  detail: {}", v.detail));
+                    if total_viol <= 12 {
+                        lines.push(format!("VIOLATION property={} replay={}", property, path));
+                        lines.push(format!("  oracle={} sig={} seen={}x", v.oracle, v.sig, count));
+                        lines.push(format!("  detail: {}", v.detail));
+                    } else {
+                        more.push(v.sig.clone());
+                    }
                     exit = 1;
                 }
             }
         }
+    }
+    if !more.is_empty() {
+        lines.push(format!("... and {} more distinct violation signatures (replays written): {}", more.len(), more.iter().take(40).cloned().collect::<Vec<_>>().join(" | ")));
     }
     for (what, n) in &known_hits {
         lines.push(format!("KNOWN-FINDING: property={} {} (seen {}x)", property, what, n));
